@@ -8,3 +8,4 @@ pub mod refsign;
 pub mod report;
 pub mod signsys;
 pub mod util;
+pub mod xcheck;
